@@ -3,6 +3,7 @@ package drivers
 import (
 	"bytes"
 	"encoding/json"
+	"errors"
 	"fmt"
 	"math/rand"
 	"os"
@@ -13,6 +14,7 @@ import (
 	"time"
 
 	bolt "go.etcd.io/bbolt"
+	berrors "go.etcd.io/bbolt/errors"
 	"go.etcd.io/bbolt/verifh/decode"
 	"go.etcd.io/bbolt/verifh/exec"
 	"go.etcd.io/bbolt/verifh/gen"
@@ -34,16 +36,17 @@ type c14Args struct {
 }
 
 type c14Res struct {
-	Round     int            `json:"round"`
-	Viol      []string       `json:"viol,omitempty"`
-	Backups   int            `json:"backups"`
-	ByMethod  map[string]int `json:"by_method"`
-	Ages      map[string]int `json:"reader_age_at_copy"`  // commits between the reader's begin and the start of the copy
-	During    map[string]int `json:"commits_during_copy"` // commits that landed while the copy ran
-	Commits   int            `json:"commits"`
-	Bytes     int64          `json:"bytes_copied"`
-	CopyPages int            `json:"pages_accounted_in_copies"`
-	Remaps    int            `json:"remaps"`
+	Round       int            `json:"round"`
+	Viol        []string       `json:"viol,omitempty"`
+	Backups     int            `json:"backups"`
+	ByMethod    map[string]int `json:"by_method"`
+	Ages        map[string]int `json:"reader_age_at_copy"`  // commits between the reader's begin and the start of the copy
+	During      map[string]int `json:"commits_during_copy"` // commits that landed while the copy ran
+	Commits     int            `json:"commits"`
+	Bytes       int64          `json:"bytes_copied"`
+	CopyPages   int            `json:"pages_accounted_in_copies"`
+	Remaps      int            `json:"remaps"`
+	SizeRejects int            `json:"size_rejects"`
 }
 
 // slowWriter lets many commits land while the copy is in progress.
@@ -248,6 +251,42 @@ func c14Round(a *c14Args, round int) (res c14Res) {
 			_ = tx.Rollback()
 			break
 		}
+		if ci%9 == 4 {
+			// "every amount of concurrent write activity" includes writers that fail: a commit rejected by the size
+			// limit is rolled back by bbolt itself (freelist reload) while backups are being taken
+			mk := gen.Step{Op: "createIf", N: 3}
+			big := gen.Step{Op: "put", P: []int{3}, K: &gen.K{ID: 990}, V: &gen.V{Seed: wr.Uint32(), Len: 300 * ps}}
+			sim.Apply(&mk)
+			sim.Apply(&big)
+			_ = applyPlain(tx, &mk)
+			if err := applyPlain(tx, &big); err != nil {
+				fail("writer put: %v", err)
+				_ = tx.Rollback()
+				break
+			}
+			id := tx.ID()
+			vmu.Lock()
+			versions[id] = exec.ModelDump(sim.Cur)
+			vmu.Unlock()
+			db.MaxSize = 1
+			err := tx.Commit()
+			db.MaxSize = 0
+			switch {
+			case err == nil:
+				sim.Apply(&gen.Step{Op: "commit"})
+				commitSeq.Add(1)
+				res.Commits++
+			case errors.Is(err, berrors.ErrMaxSizeReached):
+				sim.Apply(&gen.Step{Op: "rollback"})
+				vmu.Lock()
+				delete(versions, id)
+				vmu.Unlock()
+				res.SizeRejects++
+			default:
+				fail("commit under an unsatisfiable size limit: %v", err)
+			}
+			continue
+		}
 		id := tx.ID()
 		sim.Apply(&gen.Step{Op: "commit"})
 		vmu.Lock()
@@ -369,6 +408,7 @@ func runC14(c *Ctx) int {
 			tot.Bytes += r.Bytes
 			tot.CopyPages += r.CopyPages
 			tot.Remaps += r.Remaps
+			tot.SizeRejects += r.SizeRejects
 			for k, v := range r.ByMethod {
 				tot.ByMethod[k] += v
 			}
@@ -402,18 +442,19 @@ func runC14(c *Ctx) int {
 		samples = []string{"(no round completed)"}
 	}
 	cov := map[string]any{
-		"evaluations":               tot.Backups,
-		"distinct_nontrivial":       len(sit),
-		"rule":                      "read transactions that have aged 0/1/2/5/12 commits call WriteTo (through a deliberately slow counting writer, with WriteFlag unset and O_SYNC) or CopyFile while a writer goroutine keeps committing page-recycling and growing batches (race detector on, seeded yields); for every backup: returned n == bytes written == tx.Size(); the copy is decoded by D (exact page accounting, both metas valid and equal, length == high-water mark) and must equal the model's version tx.ID(); it is opened by the real code: dump equals that version, Tx.Check silent. 1 KiB/4 KiB pages x both backends x freelist-sync on/off. distinct_nontrivial = distinct (configuration, reader-age class, commits-during-copy class) combinations observed.",
-		"samples":                   samples,
-		"backups_by_method":         tot.ByMethod,
-		"reader_age_at_copy_start":  tot.Ages,
-		"commits_during_copy":       tot.During,
-		"writer_commits":            tot.Commits,
-		"bytes_copied":              tot.Bytes,
-		"pages_accounted_in_copies": tot.CopyPages,
-		"remaps_observed":           tot.Remaps,
-		"race_reports":              races,
+		"evaluations":                           tot.Backups,
+		"distinct_nontrivial":                   len(sit),
+		"rule":                                  "read transactions that have aged 0/1/2/5/12 commits call WriteTo (through a deliberately slow counting writer, with WriteFlag unset and O_SYNC) or CopyFile while a writer goroutine keeps committing page-recycling and growing batches (race detector on, seeded yields); for every backup: returned n == bytes written == tx.Size(); the copy is decoded by D (exact page accounting, both metas valid and equal, length == high-water mark) and must equal the model's version tx.ID(); it is opened by the real code: dump equals that version, Tx.Check silent. 1 KiB/4 KiB pages x both backends x freelist-sync on/off. distinct_nontrivial = distinct (configuration, reader-age class, commits-during-copy class) combinations observed.",
+		"samples":                               samples,
+		"backups_by_method":                     tot.ByMethod,
+		"reader_age_at_copy_start":              tot.Ages,
+		"commits_during_copy":                   tot.During,
+		"writer_commits":                        tot.Commits,
+		"bytes_copied":                          tot.Bytes,
+		"pages_accounted_in_copies":             tot.CopyPages,
+		"remaps_observed":                       tot.Remaps,
+		"writer_commits_rejected_by_size_limit": tot.SizeRejects,
+		"race_reports":                          races,
 	}
 	if tot.During["0"] == tot.Backups {
 		c.Inconclusive("no commit ever landed during a copy")
